@@ -22,6 +22,15 @@ def run(chk):
     texts += gen.words([b"a", b" ", b"(", b")", b"[", b"]", b"<", b">", b"!", b"-", b",", b"=", b":"], 3)
     texts += [b"foo [--]", b"foo:-- ", b"a [linux-any any-amd64 musl-linux-amd64]", b"${misc:Depends}", b"(>= 1)", b"foo <>", b"foo < >",
               b"f\xc3\xa9", b"a [gnu-linux- linux-]", b"foo (= <1)", b"foo (>= =1)", b"a <!x !y> <z>", b"a:any [!i386 !amd64] (<< 2~) <a> <!b c>"]
+    # a substvar with restrictions behind it: refused (a substvar is a whole alternative) - if it were accepted, the
+    # rendering "${name}" would lose them
+    CL = [b"(>= 1.0)", b"[linux-any]", b"[!i386 !amd64]", b"<!nocheck>", b"<a> <!b c>", b"(<< 2~) [amd64]", b"[amd64] <cross>"]
+    for sub in (b"${shlibs:Depends}", b"${a}", b"${}", b"${misc:Depends }"):
+        for w in (b"", b" ", b"\n  "):
+            for cl in CL:
+                for pre in (b"", b"foo, ", b"foo | "):
+                    for suf in (b"", b", bar", b" | baz (<< 2)"):
+                        texts.append(pre + sub + w + cl + suf)
     pc = [("dparse", [t]) for t in texts]
     pi, pm = chk.run_both(pc)
     chk.compare("parse", pc, pi, pm, spec=False)                 # the property is the round trip, judged below on the implementation
